@@ -135,6 +135,7 @@ inductive Op
                                                -- router.AddHandler / AddNoPublisherHandler; `app = some g`: with the
                                                -- application-decorated (shared) subscriber object `g`
   | plugin (ps : List POp)                     -- router.AddPlugin(func(r) { ps })
+  | stopHandler (h : String)                   -- handler.Stop() (and wait for Stopped()): the handler leaves the router
   | callerEdits                                -- the application edits the slices it passed (`ms...`, `decs...`) so far:
                                                -- overwrites elements, appends on their spare capacity, hands them to
                                                -- another router.  The router's lists are value copies made at
@@ -207,6 +208,10 @@ def step (s : St) : Op → Option St
     if s.hs.any (·.name == h) then none else some { s with hs := s.hs ++ [⟨h, p, a, none⟩] }
   | .plugin ps => some { s with plugins := s.plugins ++ [ps] }
   | .callerEdits => some s
+  | .stopHandler h =>
+    -- only a started handler can be stopped (`Stop` panics otherwise); its `run` loop ends, RunHandlers' goroutine
+    -- deletes it from `r.handlers`.  Its registrations stay in `r.middlewares` (they carry its name, nothing else has it)
+    if s.hs.any (fun x => x.name == h && x.trace.isSome) then some { s with hs := s.hs.filter (·.name != h) } else none
   | .pubDec ids => some { s with pd := s.pd ++ ids }
   | .subDec ids => some { s with sd := s.sd ++ ids }
   | .run =>
